@@ -384,3 +384,88 @@ def tasks_versioned():
         return []
     cfgs = versioned_configs()
     return [{"cfgs": cfgs[i::16]} for i in range(16)]
+
+
+# ---------------------------------------------------------------------------
+# part "aliases": the documented legacy spellings of the decisions (hash_needs_update, encrypt, positional
+# scheme / category arguments) answer like the current ones, for every category
+# ---------------------------------------------------------------------------
+def eval_aliases(cfg):
+    import warnings as W
+
+    from passlib.context import CryptContext
+
+    out = []
+    key = "C04|aliases|"
+    kw = dict(schemes=["sha256_crypt", "md5_crypt"], deprecated=["md5_crypt"], sha256_crypt__min_rounds=1000, sha256_crypt__max_rounds=2000,
+              sha256_crypt__default_rounds=1500, admin__sha256_crypt__min_rounds=3000, admin__sha256_crypt__max_rounds=4000,
+              admin__sha256_crypt__default_rounds=3500, legacy__context__deprecated=[])
+    ctx = CryptContext(**kw)
+    S5 = HS.handler("sha256_crypt")
+    hashes = {"sha256@1500": S5.using(rounds=1500).hash(PW), "sha256@3500": S5.using(rounds=3500).hash(PW), "md5": HS.handler("md5_crypt").hash(PW)}
+    windows = {None: (1000, 2000), "admin": (3000, 4000), "legacy": (1000, 2000), "unknown": (1000, 2000)}
+    cat, hname = cfg["category"], cfg["hash"]
+    h = hashes[hname]
+    lo, hi = windows[cat]
+    if hname == "md5":
+        want = cat != "legacy"
+    else:
+        r = int(hname.split("@")[1])
+        want = not (lo <= r <= hi)
+    calls = {
+        "needs_update(h, category=c)": lambda: ctx.needs_update(h, category=cat),
+        "needs_update(h, None, c)": lambda: ctx.needs_update(h, None, cat),
+        "hash_needs_update(h, category=c)": lambda: ctx.hash_needs_update(h, category=cat),
+        "hash_needs_update(h, None, c)": lambda: ctx.hash_needs_update(h, None, cat),
+        "hash_needs_update(h, scheme=s, category=c)": lambda: ctx.hash_needs_update(h, scheme=("md5_crypt" if hname == "md5" else "sha256_crypt"), category=cat),
+        "verify_and_update(pw, h, category=c)": lambda: ctx.verify_and_update(PW, h, category=cat)[1] is not None,
+        "verify_and_update(pw, h, None, c)": lambda: ctx.verify_and_update(PW, h, None, cat)[1] is not None,
+    }
+    with W.catch_warnings():
+        W.simplefilter("ignore")
+        for label, f in calls.items():
+            try:
+                got = f()
+            except Exception as e:  # noqa: BLE001
+                out.append((key + f"raises:{type(e).__name__}", f"{label} with category {cat!r} on the {hname} hash raised {e!r}"))
+                continue
+            if bool(got) != want:
+                out.append((key + f"{label.split('(')[0]}:{'positional' if ', None, c' in label else 'keyword'}:{'missed' if want else 'spurious'}",
+                            f"{label} with category {cat!r} on the {hname} hash = {got!r}; the policy for that category (window {lo}..{hi}, deprecated {'[]' if cat == 'legacy' else ['md5_crypt']}) says {want}"))
+        # hashing through the legacy name
+        try:
+            for label, f in (("encrypt(pw, category=c)", lambda: ctx.encrypt(PW, category=cat)), ("hash(pw, category=c)", lambda: ctx.hash(PW, category=cat)),
+                             ("hash(pw, None, c)", lambda: ctx.hash(PW, None, cat))):
+                fresh = f()
+                r = S5.from_string(fresh).rounds
+                if not (lo <= r <= hi) or ctx.needs_update(fresh, category=cat):
+                    out.append((key + f"{label.split('(')[0]}:cost", f"{label} with category {cat!r} made a hash with cost {r}, window {lo}..{hi}"))
+        except Exception as e:  # noqa: BLE001
+            out.append((key + f"hash_raises:{type(e).__name__}", f"hashing with category {cat!r} raised {e!r}"))
+    return out
+
+
+_replay_versioned = replay
+
+
+def replay(case):  # noqa: F811
+    if case.get("part") == "aliases":
+        return eval_aliases(case["cfg"])
+    return _replay_versioned(case)
+
+
+def work_aliases(task):
+    acc = Acc()
+    for cfg in task["cfgs"]:
+        acc.ev()
+        acc.cls("aliases", cfg["category"], cfg["hash"])
+        vs = eval_aliases(cfg)
+        acc.outcome(("aliases", "viol" if vs else "ok"))
+        for key, desc in vs:
+            acc.violation(key, desc, {"part": "aliases", "cfg": cfg})
+    return acc
+
+
+def tasks_aliases():
+    cfgs = [{"category": c, "hash": h} for c in (None, "admin", "legacy", "unknown") for h in ("sha256@1500", "sha256@3500", "md5")]
+    return [{"cfgs": cfgs[i::4]} for i in range(4)]
